@@ -86,6 +86,10 @@ def gen_case(rng, tier):
             ]))
         case["final"] = f
     case["restriction"] = restr
+    if case["final"]["kind"] == "join" and rng.random() < 0.4:
+        # explicit, already resolved equality columns drawn at random: either operand may lack one
+        # (then the call has to raise ColumnError), otherwise the join node has to carry exactly them
+        case["final"] = dict(case["final"], minmax=rng.sample("abcd", rng.randint(1, 2)))
     case["twin_first"] = rng.random() < 0.3
     if rng.random() < 0.08:
         # a join identity that travelled through one or two transfers, joined to a relation that
@@ -185,7 +189,19 @@ def run_case(case):
                 if opt and opt.get("explicit"):
                     fixed_rel = b.build(f["fixed"])
                     pj = b.plib(f["pred"]) if f["pred"] is not None else R.Predicate.literal(True)
-                    res = R.Join(pj).partial(fixed_rel, is_lhs=bool(f.get("is_lhs"))).apply(base, **opt_kwargs({k: v for k, v in opt.items() if k != "explicit"}, engines))
+                    if f.get("minmax"):
+                        from ..tags import T
+
+                        cc = frozenset(T(x) for x in f["minmax"])
+                        jop = R.Join(pj, min_columns=cc, max_columns=cc)
+                        c["explicit_common_column_requests"] = c.get("explicit_common_column_requests", 0) + 1
+                    else:
+                        jop = R.Join(pj)
+                    res = jop.partial(fixed_rel, is_lhs=bool(f.get("is_lhs"))).apply(base, **opt_kwargs({k: v for k, v in opt.items() if k != "explicit"}, engines))
+                    if f.get("minmax"):
+                        lacking = [x for x in f["minmax"] if T(x) not in base.columns or T(x) not in fixed_rel.columns]
+                        if lacking and not (base.is_join_identity or fixed_rel.is_join_identity):
+                            out["violations"].append({"kind": "join_on_missing_common_column_returned_a_tree", "detail": f"{label} with {opt}: Join(min_columns=max_columns={sorted(f['minmax'])}) although {lacking} is not a column of both operands; returned {short(res, 300)}"})
                 else:
                     res = c03.apply_final(case, base, b, engines, opt)
             except (R.EngineError, R.ColumnError):
